@@ -98,7 +98,7 @@ def o_reverse(c):
     ri = cc.apply(a, 'reverse', inplace=True, swap_terms=swap)
     if cc.norm_dump(r) != cc.norm_dump(ri):
         return f'inplace=True gives {annot.dump(ri)} but inplace=False gives {annot.dump(r)}'
-    if annot.dump(a) != d:
+    if annot.dump(a, sort_internal=False) != d:
         return 'reverse changed its argument'
     if cc.res(r) != cc.res(a)[::-1]:
         return f'residues with their mods are not reversed: {cc.res(r)} vs {cc.res(a)[::-1]}'
@@ -132,7 +132,7 @@ def o_shift(c):
     ri = cc.apply(a, 'shift', k, inplace=True)
     if cc.norm_dump(r) != cc.norm_dump(ri):
         return f'inplace=True gives {annot.dump(ri)} but inplace=False gives {annot.dump(r)}'
-    if annot.dump(a) != d:
+    if annot.dump(a, sort_internal=False) != d:
         return 'shift changed its argument'
     e = k % n
     ra = cc.res(a)
@@ -190,7 +190,7 @@ def o_shuffle(c):
     ri = cc.apply(a, 'shuffle', seed, inplace=True)
     if cc.norm_dump(r) != cc.norm_dump(ri):
         return f'inplace=True gives {annot.dump(ri)} but inplace=False gives {annot.dump(r)}'
-    if annot.dump(a) != d:
+    if annot.dump(a, sort_internal=False) != d:
         return 'shuffle changed its argument'
     perm = cc.read_perm(a, seed)
     if sorted(perm) != list(range(n)):
@@ -218,7 +218,7 @@ def o_sort(c):
     ri = cc.apply(a, 'sort_residues', inplace=True)
     if cc.norm_dump(r) != cc.norm_dump(ri):
         return f'inplace=True gives {annot.dump(ri)} but inplace=False gives {annot.dump(r)}'
-    if annot.dump(a) != d:
+    if annot.dump(a, sort_internal=False) != d:
         return 'sort_residues changed its argument'
     exp = sorted(cc.res(a), key=lambda x: x[0])
     if cc.res(r) != exp:
@@ -269,7 +269,7 @@ def o_slice(c):
     ri = cc.apply(a, 'slice', i, j, inplace=True)
     if cc.norm_dump(r) != cc.norm_dump(ri):
         return f'inplace=True gives {annot.dump(ri)} but inplace=False gives {annot.dump(r)}'
-    if annot.dump(a) != d:
+    if annot.dump(a, sort_internal=False) != d:
         return 'slice changed its argument'
     m = check_slice(a, d, i, j, r)
     if m:
